@@ -102,6 +102,68 @@ def boxes(h: Harness):
     h.exhaustive = True
 
 
+def float_lists(h: Harness):
+    """FloatList written with whatever literals a user writes (ints among the floats, as the shipped classification example does): what
+    generate() returns is one of the listed elements, and the handler's own validate() accepts it"""
+    from core import ScriptedSource
+    from geneticengine.grammar.metahandlers.floats import FloatList
+    for elems in ([-1, -0.1, -0.01, -0.001, 1, 0.1, 0.01, 0.001], [0, 0.5, 2], [0.0, 0.5, 1.0], [3], [True, 0.25, 2.5]):
+        mh = FloatList(list(elems))
+        for d in range(len(elems) + 2):
+            try:
+                v = mh.generate(ScriptedSource([d]), None, float, None, {})
+            except Exception as e:  # noqa: BLE001
+                h.fail("FloatList.generate", "raises", f"FloatList({elems}).generate raised {type(e).__name__}: {e}", [elems, d])
+                continue
+            h.count("FloatList:draws")
+            h.seen(f"floatlist:{elems}:{d}", nontrivial=len(elems) > 1)
+            if not any(v is x or (type(v) is type(x) and v == x) for x in elems):
+                h.fail("FloatList.generate", "generated-value-violates-refinement", f"FloatList({elems}) generated {v!r}, which is not one of its elements", [elems, d])
+            elif not mh.validate(v):
+                h.fail("FloatList.validate", "validate-rejects-generated-value",
+                       f"FloatList({elems}).validate rejects {v!r}, a value its own generate() produced", [elems, d])
+
+
+def long_derivations(h: Harness):
+    """a derivation of thousands of decisions mapped from a genome of THREE to five genes (read round and round, well over a thousand
+    times): every refined value of the big program is still inside its refinement -- the last one like the first"""
+    from linear import GE, SGE, safe
+    from geneticengine.random.sources import NativeRandomSource
+    C = gram.ClassSpec
+    rows = h.n(1500, 4000)
+    spec = gram.Spec([C("Table", False, None, [("rows", ("ann", ("list", ("cls", 1)), ("listSizeNoOps", rows, rows)))]),
+                      C("Row", False, None, [("k", ("ann", "int", ("intRange", 5, 9))),
+                                             ("cells", ("ann", ("list", ("ann", "int", ("intRange", 9, 10))), ("listSizeNoOps", 2, 3)))])], 0, [0, 1])
+    b = gram.build(spec)
+    g = b.extract()
+    line_spec = gram.spec_sx(spec)
+    rng = h.rng
+    for name, mk, glen in (("GE", lambda r, n: GE(g, synth.make_decider("grow", 6, r, g), gene_length=n), 3),
+                           ("GE", lambda r, n: GE(g, synth.make_decider("grow", 6, r, g), gene_length=n), 5),
+                           ("SGE", lambda r, n: SGE(g, synth.make_decider("grow", 6, r, g), gene_length=n), 3)):
+        r = NativeRandomSource(rng.randrange(10**6))
+        rep = mk(r, glen)
+        st, geno = safe(lambda: rep.create_genotype(r))
+        if st != "ok":
+            continue
+        st, p = safe(lambda: rep.genotype_to_phenotype(geno))
+        h.count(f"long-derivations:{name}:{st}")
+        h.seen(f"long-derivation:{name}:{glen}", nontrivial=st == "ok")
+        if st != "ok":
+            if st == "err" and str(p).startswith("foreign"):
+                h.fail(f"{name}.genotype_to_phenotype", "foreign-error", f"mapping a table of {rows} rows from {glen} genes raised {p}", [name, glen])
+            continue
+        # (checked here, not by the Lean predicate: the program has tens of thousands of nodes)
+        for i, row in enumerate(p.rows):
+            if not (type(row.k) is int and 5 <= row.k <= 9 and 2 <= len(row.cells) <= 3 and all(type(c) is int and 9 <= c <= 10 for c in row.cells)):
+                h.fail(f"{name}.genotype_to_phenotype", "refinement-violated",
+                       f"{name} genome of {glen} genes, table of {rows} rows: row {i} is Row(k={row.k!r}, cells={list(row.cells)!r}); "
+                       f"declared k in 5..9, 2..3 cells in 9..10", [name, glen, i])
+                break
+        if len(p.rows) != rows:
+            h.fail(f"{name}.genotype_to_phenotype", "refinement-violated", f"the table has {len(p.rows)} rows, declared exactly {rows}", [name, glen])
+
+
 def dense_spec(rng):
     """grammar whose productions mostly carry refined fields, at all positions"""
     spec = gram.productive_spec(rng, max_classes=rng.choice([3, 4, 5]), opts={"float": False})
@@ -448,6 +510,8 @@ def handed_down_values(h: Harness):
 
 def run(h: Harness):
     boxes(h)
+    float_lists(h)
+    long_derivations(h)
     weighted_strings(h)
     handed_down_values(h)
     float_refinements(h)
